@@ -4,6 +4,7 @@ import json, glob, os
 ROOT = os.path.dirname(os.path.dirname(os.path.abspath(__file__)))
 # seeds that the quick tier missed when first tried, and what was strengthened
 HISTORY = {
+ "C04-h": "superseded: neutralised for the line breaker by fix 0858765 (C04 holds, the demo passes); still reported by C12",
  "C04-m": "missed at first (no discretionary with a non-empty pre-break of zero width); zero-width pre-breaks in disc-penalties",
  "C04-p": "missed at first (line_penalty only -1/0/1); line_penalty on both sides of +-10000",
  "C05-n": "missed at first (one font per preprocessor); family add-word-history (two fonts, operation histories)",
